@@ -1,6 +1,6 @@
 """C18 — truncated files: handle typestate on every exit, loop progress, nullable use, ENDLIB
 dominance of success returns, error-result checks, bounded copies (DESIGN.md §4 C18)."""
-from .. import flow, tables, cfg as cfgmod
+from .. import flow, pathsens, tables, cfg as cfgmod
 from ..facts import AnalysisBroken
 from ..flow import null_test, lvalue_key, is_assign, pretty_key, _strip_casts
 import re
@@ -59,7 +59,169 @@ def is_empty_value(fn, v, ret):
     return False, 'returns `%s`' % v.text()[:60]
 
 
+ERRKINDS = ('err', 'rerr')
+
+
+def _code_val(e, conf):
+    """abstract value of an ErrorCode / bool expression under a configuration: 'ok' | 'err' (a constant other than NoError) |
+    'rerr' (a record read that failed) | 'r?' (a record read not yet tested) | True | False | 'any'"""
+    e = flow._strip_casts(e)
+    while e is not None and e.k == 'ParenExpr':
+        e = flow._strip_casts(e.c[0])
+    if e is None:
+        return 'any'
+    if e.k == 'DeclRefExpr' and e.dk == 'enum':
+        if (e.qn or '').endswith('ErrorCode::NoError'):
+            return 'ok'
+        return 'err' if 'ErrorCode::' in (e.qn or '') else 'any'
+    if e.k == 'CXXBoolLiteralExpr':
+        return bool(e.v)
+    if e.k == 'CallExpr' and e.callee == RECORD_READER:
+        return 'r?'
+    if e.k == 'DeclRefExpr':
+        return pathsens.env_get(conf, lvalue_key(e), 'any')
+    if is_assign(e) and e.op == '=':
+        return _code_val(e.child('rhs'), conf)
+    if e.k == 'UnaryOperator' and e.op == '!':
+        v = _code_val(e.child('sub'), conf)
+        return (not v) if isinstance(v, bool) else 'any'
+    if e.k == 'BinaryOperator' and e.op in ('==', '!='):
+        a, b = _code_val(e.child('lhs'), conf), _code_val(e.child('rhs'), conf)
+        if isinstance(a, bool) and isinstance(b, bool):
+            return (a == b) == (e.op == '==')
+        if b != 'ok':
+            a, b = b, a
+        if b == 'ok' and a in ('ok',) + ERRKINDS:
+            return (a == 'ok') == (e.op == '==')
+        return 'any'
+    if e.k == 'BinaryOperator' and e.op in ('&&', '||'):
+        a, b = _code_val(e.child('lhs'), conf), _code_val(e.child('rhs'), conf)
+        if e.op == '&&':
+            return False if (a is False or b is False) else (True if (a is True and b is True) else 'any')
+        return True if (a is True or b is True) else (False if (a is False and b is False) else 'any')
+    return 'any'
+
+
+def _code_refine(cond, conf, truth):
+    """configuration on the edge where `cond` evaluates to `truth` (None: infeasible)"""
+    c = flow._strip_casts(cond)
+    while c is not None and c.k == 'ParenExpr':
+        c = flow._strip_casts(c.c[0])
+    if c is None:
+        return conf
+    v = _code_val(c, conf)
+    if isinstance(v, bool):
+        return conf if v == truth else None
+    if c.k == 'UnaryOperator' and c.op == '!':
+        return _code_refine(c.child('sub'), conf, not truth)
+    if c.k == 'DeclRefExpr' and lvalue_key(c) and (c.t or '') == 'bool':
+        return pathsens.env_set(conf, lvalue_key(c), truth)
+    if c.k == 'BinaryOperator' and c.op in ('==', '!='):
+        l, r = flow._strip_casts(c.child('lhs')), flow._strip_casts(c.child('rhs'))
+        if _code_val(l, conf) == 'ok':
+            l, r = r, l
+        if _code_val(r, conf) == 'ok' and l is not None:
+            while l.k == 'ParenExpr':
+                l = flow._strip_casts(l.c[0])
+            if is_assign(l) and l.op == '=':
+                l = flow._strip_casts(l.child('lhs'))
+            key = lvalue_key(l) if l.k == 'DeclRefExpr' else None
+            cur = _code_val(l, conf)
+            success = (c.op == '==') == truth
+            if success:
+                return pathsens.env_set(conf, key, 'ok') if key else conf
+            if cur == 'r?':
+                conf = pathsens.flag(conf, 'F')
+                return pathsens.env_set(conf, key, 'rerr') if key else conf
+            return pathsens.env_set(conf, key, 'err') if key else conf
+    return conf
+
+
+def check_mustpass_codes(ctx, fn, rule, need_endlib):
+    """R-MUSTPASS for the readers that return an ErrorCode, by path-sensitive exploration (sa/pathsens.py): on every
+    path on which a record read failed the function returns a code other than NoError (the failing code itself or an
+    error constant), and - where ENDLIB is the only legitimate end - no path that has started reading returns NoError
+    without having passed the ENDLIB arm. Flags, result variables and single exits carry the facts as data."""
+    g = fn.cfg
+    L = find_read_loop(fn)
+    if L is None:
+        raise AnalysisBroken('%s: read loop (loop calling gdsii_read_record) not found' % fn.qn)
+    inl = {n.id for n in L.walk()}
+    endlib_blocks = set()
+    for b in g.blocks.values():
+        if b.lab:
+            lab = fn.nodes.get(b.lab)
+            while lab is not None and lab.k == 'CaseStmt':
+                if lab.child('lhs') is not None and lab.child('lhs').cv == ENDLIB and lab.id in inl:
+                    endlib_blocks.add(b.id)
+                lab = lab.child('sub') if lab.child('sub') is not None and lab.child('sub').k == 'CaseStmt' else None
+    if need_endlib and not endlib_blocks:
+        raise AnalysisBroken('%s: no `case ENDLIB` label inside the read loop' % fn.qn)
+
+    def tracked(t):
+        t = (t or '').replace('const ', '').strip()
+        return t == 'bool' or (t.endswith('ErrorCode') and '*' not in t and '&' not in t)
+
+    def transfer(n, conf):
+        if n.k == 'CallExpr':
+            if n.callee == RECORD_READER:
+                conf = pathsens.flag(conf, 'R')
+            for i, a in enumerate(n.args):
+                a0 = flow._strip_casts(a)
+                if a0 is None:
+                    continue
+                if a0.k == 'UnaryOperator' and a0.op == '&':
+                    a0 = flow._strip_casts(a0.child('sub'))
+                elif i not in (n.j.get('mutargs') or []):
+                    continue
+                if a0 is not None and a0.k == 'DeclRefExpr' and tracked(a0.t) and lvalue_key(a0):
+                    conf = pathsens.env_set(conf, lvalue_key(a0), 'any')
+            return conf
+        if n.k == 'VarDecl' and tracked(n.t):
+            return pathsens.env_set(conf, 'v%d:%s' % (n.d, n.n), _code_val(n.child('init'), conf) if n.child('init') is not None else 'any')
+        if (is_assign(n) or n.k == 'CompoundAssignOperator'):
+            l = flow._strip_casts(n.child('lhs'))
+            if l is not None and l.k == 'DeclRefExpr' and tracked(l.t) and lvalue_key(l):
+                return pathsens.env_set(conf, lvalue_key(l), _code_val(n.child('rhs'), conf) if n.op == '=' else 'any')
+        return conf
+
+    def branch(blk, cond, conf):
+        return {0: _code_refine(cond, conf, True), 1: _code_refine(cond, conf, False)}
+
+    def enter(blk, conf):
+        return pathsens.flag(conf, 'D') if blk.id in endlib_blocks else conf
+
+    confs = pathsens.explore(fn, (frozenset(), ()), transfer, branch, enter)
+    ctx.explored['cfg_edges'] += sum(len(v) for v in confs.values())
+    rets = sorted((n for n in fn.walk() if n.k == 'ReturnStmt'), key=lambda n: n.pos)
+    cnt = 0
+    for i, r in enumerate(rets):
+        ikey = '%s/return#%d' % (fn.qn, i)
+        cs = pathsens.at_node(fn, confs, r, transfer, enter)
+        if not cs:
+            continue
+        failed = [c for c in cs if 'F' in c[0]]
+        early = [c for c in cs if need_endlib and 'F' not in c[0] and 'R' in c[0] and 'D' not in c[0]]
+        if failed:
+            cnt += 1
+            bad = [c for c in failed if _code_val(r.child('value'), c) not in ERRKINDS]
+            ctx.check(not bad, rule, ikey, r.loc(), 'on every path with a failed record read this exit returns a code other than NoError (%d configurations)' % len(failed),
+                      'error exit returns a possibly populated value (returns `%s`, which can be NoError after a failed record read): a shortened layout could be returned'
+                      % r.child('value').text()[:40])
+        if early:
+            cnt += 1
+            bad = [c for c in early if _code_val(r.child('value'), c) not in ERRKINDS]
+            ctx.check(not bad, rule, ikey + '/before-ENDLIB', r.loc(), 'paths that have not passed the ENDLIB arm return an error code here',
+                      'a return reachable after reading records (outside the record-error paths) is not through `case ENDLIB` and can return NoError: a file cut before ENDLIB could be returned as success')
+        if not failed and not early and any('D' in c[0] for c in cs):
+            cnt += 1
+            ctx.ok(rule, ikey, r.loc(), 'return inside the read loop is dominated by the ENDLIB arm')
+    return cnt
+
+
 def check_mustpass(ctx, fn, rule='R-MUSTPASS', need_endlib=True):
+    if (fn.ret or '').endswith('ErrorCode'):
+        return check_mustpass_codes(ctx, fn, rule, need_endlib)
     g = fn.cfg
     L = find_read_loop(fn)
     if L is None:
